@@ -4,7 +4,7 @@ READY = True
 SPEC = {
     "targets": ["Properties/C07.vo", "Run/C07.vo"],
     "theorems": {"Properties.C07": ["C07_disable_exact", "C07_disable_exact_nodup", "C07_problems_exact", "C07_problems_exact_shift", "C07_problems_exact_snooze_shift", "C07_problems_exact_cfg",
-                                    "C07_untargeted_comment_selection", "C07_problems_untargeted", "C07_problems_nonvacuous", "C07_snooze_live_exact", "C07_snooze_expired_noop",
+                                    "C07_untargeted_comment_selection", "C07_problems_untargeted", "C07_problems_nonvacuous", "C07_comment_readers_match_source", "C07_snooze_live_exact", "C07_snooze_expired_noop",
                                     "C07_locked_ignores_comments", "C07_all_locked_ignore_comments",
                                     "C07_file_disable_all_rules", "C07_file_comment_noop", "C07_nonvacuous",
                                     "C07_grammar_roundtrip", "C07_grammar_keywords", "C07_roundtrip_disable",
@@ -17,6 +17,7 @@ SPEC = {
     "trusted_base": [
         "Coq 8.16.1 kernel + VM (vm_compute); no axioms (Print Assumptions: closed under the global context for every theorem)",
         "translator/ext_C10.go (go/ast): comment tables -> Gen/C10.v, theorem C07_tables_match_source re-proved every run",
+        "translator/ext_C07.go (go/ast): files of internal/checks that read rule comments -> Gen/C07.v (C07_comment_readers_match_source)",
         "correspondence via overlay exports: comments.Parse (byte level), isDisabledForRule / isEnabled / the GetChecksForEntry selection loop "
         "around parsedRule.isEnabled (fake RuleCheckers with chosen String()/Meta()), discovery.readRules DisabledChecks, parseRule comment "
         "attachment (yaml node snapshot before the call) vs Model.Comments / Model.Enable / Model.Reader / Model.Attach",
